@@ -687,7 +687,10 @@ class InterpolatedPredictionStrategy(DefaultPredictionStrategy):
         train_train_covar_inv_root = train_train_covar_inv_root.to_dense()
 
         # New root factor
-        root = self._exact_predictive_covar_inv_quad_form_cache(train_train_covar_inv_root, self._last_test_train_covar)
+        # The cache depends on the training data only: build it from the train/train covariance (same inducing
+        # covariance and train interpolation as the right side of any test/train covariance) so that it does not
+        # inherit the batch shape of the test inputs of the call that happened to compute it
+        root = self._exact_predictive_covar_inv_quad_form_cache(train_train_covar_inv_root, train_train_covar)
 
         # Precomputed factor
         if settings.fast_pred_samples.on():
